@@ -33,7 +33,7 @@ def main(argv):
     jobs = mod.jobs(tier)
     only = os.environ.get('VERIF_ONLY')
     if only:
-        jobs = [j for j in jobs if only in j.name]
+        jobs = [j for j in jobs if any(o in j.name for o in only.split(',,'))]
     return run.main_check(pid, mod.__name__, tier, jobs, mod.META)
 
 
